@@ -21,7 +21,7 @@ RULE = (
 ASSUMPTIONS = [
     "integer/dyadic data is judged exactly; decimal data with the solver's own 1e-9 tolerance on loads, and an optimality "
     "competitor must be within capacity by more than 1e-9",
-    "n <= 4 items (knapsack), <= 6 (7 thorough) items (packing)",
+    "n <= 4 items (knapsack), <= 6 (7 thorough) items (packing); one family with integer capacities 100000..200000",
 ]
 
 DEC_W = (0.1, 0.25, 0.3, 0.5, 0.7, 1.5)
@@ -176,6 +176,29 @@ def _knap_dec_chunk(params, lo, hi):
     return r
 
 
+BIG_CAPS = (100000, 100001, 200000)
+
+
+def _knap_big_chunk(params, lo, hi):
+    """integer capacities above the 100000-cell threshold of the DP; weights relative to the capacity:
+    index = ((cap*64 + weight_code)*8 + value_code)"""
+    r = new_result()
+    for idx in range(lo, hi):
+        vc = digits(idx % 8, 2, 3)
+        k = idx // 8
+        wc = digits(k % 64, 4, 3)
+        cap = BIG_CAPS[k // 64]
+        walpha = (1, 2, cap - 2, cap)
+        weights = [walpha[d] for d in wc]
+        values = [(1, 10)[d] for d in vc]
+        errs, label, nt = judge_knapsack(values, weights, cap, False, True)
+        _rec(r, "solve_knapsack", errs, label, nt, {"values": values, "weights": weights, "capacity": cap, "minimize": False})
+        if len(r["violations"]) >= 40 or too_many_hangs():
+            r["capped"] = True
+            break
+    return r
+
+
 ALGOS = ("first-fit", "best-fit", "first-fit-decreasing", "best-fit-decreasing")
 
 
@@ -196,16 +219,19 @@ def _bin_chunk(params, lo, hi):
 
 
 def _bin_dec_chunk(params, lo, hi):
-    n = params
+    if isinstance(params, tuple):
+        n, tenths = params
+    else:
+        n, tenths = params, 10
+    capacity = tenths / 10
     r = new_result()
     for idx in range(lo, hi):
-        sizes = [(d + 1) / 10 for d in digits(idx, 9, n)]
+        sizes = [(d + 1) / 10 for d in digits(idx, min(9, tenths), n)]
         # optimum in exact decimal arithmetic (the intended values), loads judged with the 1e-9 tolerance
-        opt = min_bins([Fraction(int(round(s * 10)), 10) for s in sizes], Fraction(1))
+        opt = min_bins([Fraction(int(round(s * 10)), 10) for s in sizes], Fraction(tenths, 10))
         for algo in ALGOS:
-            errs, label = judge_binpack(sizes, 1.0, algo, False, opt)
-            # float accumulation may legitimately open one extra bin; the guarantee is judged against intended values
-            _rec(r, "solve_bin_pack", errs, label, opt > 1, {"sizes": sizes, "capacity": 1.0, "algorithm": algo, "decimal": True})
+            errs, label = judge_binpack(sizes, capacity, algo, False, opt)
+            _rec(r, "solve_bin_pack", errs, label, opt > 1, {"sizes": sizes, "capacity": capacity, "algorithm": algo, "decimal": True})
         if len(r["violations"]) >= 40 or too_many_hangs():
             r["capped"] = True
             break
@@ -229,6 +255,10 @@ def jobs(tier, seed):
         js.append(Job(f"knapsack_n{n}", 16**n * 7 * 2, _knap_chunk, n, describe="values, weights in {0..3}, capacity 0..6, max and min"))
     for n in (1, 2, 3):
         js.append(Job(f"knapsack_decimal_n{n}", 18**n * 6 * 2, _knap_dec_chunk, n, describe="decimal weights/capacities, values 1..3"))
+    js.append(Job("knapsack_big_integer_capacity", 3 * 64 * 8, _knap_big_chunk, None, chunk=8, describe="3 items, capacity in {100000,100001,200000}, weights in {1,2,C-2,C}, values {1,10}: exact integer data beyond the DP's table threshold"))
+    for tenths, nmax_d in ((3, 5), (7, 5), (9, 4 if tier == "quick" else 5)):
+        for n in range(1, nmax_d + 1):
+            js.append(Job(f"binpack_decimal_cap0{tenths}_n{n}", min(9, tenths) ** n, _bin_dec_chunk, (n, tenths), describe=f"sizes 0.1..{tenths / 10}, capacity {tenths / 10}"))
     nmax = 7 if tier == "thorough" else 6
     for n in range(1, nmax + 1):
         for cap in range(1, 7):
@@ -244,7 +274,7 @@ def replay(v):
         errs, _, _ = judge_knapsack(w["values"], w["weights"], w["capacity"], w["minimize"], not w.get("decimal"))
     else:
         if w.get("decimal"):
-            opt = min_bins([Fraction(int(round(s * 10)), 10) for s in w["sizes"]], Fraction(1))
+            opt = min_bins([Fraction(int(round(s * 10)), 10) for s in w["sizes"]], Fraction(int(round(w["capacity"] * 10)), 10))
         else:
             opt = min_bins([Fraction(s) for s in w["sizes"]], Fraction(w["capacity"]))
         errs, _ = judge_binpack(w["sizes"], w["capacity"], w["algorithm"], not w.get("decimal"), opt)
